@@ -43,3 +43,22 @@ Theorem C05_mirrored : forall w l,
   = rev (filter both (filter (fun x => l_tsetup (spec_of w x)) (test_layers w l))).
 Proof. exact hooks_mirrored. Qed.
 Print Assumptions C05_mirrored.
+
+(* ------------------------------------------------------------------------------------------------------------
+   The whole run, for EVERY world, option set, outcome and process: the trace of each process is made of layer
+   events and complete test blocks  hooks_up l · start t · (t's own phases/results) · hooks_down l · stop t
+   with t a selected test and l its own layer (`wb`).  So testSetUp/testTearDown never occur outside a block,
+   every started test has both hook runs, and layers outside the test's stack see neither
+   (C05_setup_exact / C05_teardown_exact say which layers hooks_up / hooks_down touch). *)
+From ZT Require Import RunBracket.
+
+Theorem C05_whole_run_blocks : forall w o,
+  wb w (r_parent (run w o)) /\ forall c, In c (r_children (run w o)) -> wb w (c_ev c).
+Proof. exact run_wb. Qed.
+Print Assumptions C05_whole_run_blocks.
+
+(* balance per layer, in every process: as many testTearDown as testSetUp calls *)
+Theorem C05_whole_run_balanced : forall w x, l_tsetup (spec_of w x) = l_tteardown (spec_of w x) ->
+  forall tr, wb w tr -> count (n_tsu x) tr = count (n_ttd x) tr.
+Proof. exact wb_balanced. Qed.
+Print Assumptions C05_whole_run_balanced.
